@@ -12,12 +12,15 @@ import (
 	"hash"
 	"sort"
 	"strings"
+	"sync/atomic"
 	"time"
 
 	"github.com/aws/aws-sdk-go/service/autoscaling"
 	awsapi "github.com/aws/aws-sdk-go/aws"
 	v1 "k8s.io/api/core/v1"
 )
+
+var execCounter uint64
 
 type crashSentinel struct{ at string }
 type exitSentinel struct{ code int }
@@ -108,6 +111,8 @@ type World struct {
 	pendingDescribeLines []string
 
 	noFaults bool // set while the harness itself talks to the seams
+	execID   uint64 // process-wide execution counter: object UIDs are unique per execution, so process-global state
+	// in the code under test (e.g. a cache keyed by UID) cannot leak from one in-process execution into the next
 	recordKeys bool
 	callKeys []string // "<group>/<op>#<occ>" of every seam call, in order (single-fault sweep)
 }
@@ -115,6 +120,7 @@ type World struct {
 func newWorld(ch *Choices, cfg *RunCfg, prof Profile, stats *Stats, keepLog bool) *World {
 	w := &World{ch: ch, cfg: cfg, prof: prof, stats: stats, occ: map[string]int{}, known: map[string]*KnownASG{}, lastGet: map[string]*v1.Node{},
 		logHash: sha256.New(), logKeep: keepLog}
+	w.execID = atomic.AddUint64(&execCounter, 1)
 	w.kube = newKube(w)
 	w.aws = newAWS(w)
 	for _, g := range cfg.Groups {
@@ -229,6 +235,9 @@ var faultsByOp = map[string][]string{
 // are raised here (crash-before) or armed for endCall (crash-after).
 func (w *World) drawFault(c *Call) string {
 	key := fmt.Sprintf("%s/%s", c.Group, c.Op)
+	if c.Op == OpDescribeInst {
+		key += "/" + c.Target // issued in map order by the code under test: occurrence and forced faults are per target
+	}
 	w.occ[key]++
 	occ := w.occ[key]
 	s := w.faultStream(c)
@@ -269,6 +278,13 @@ func (w *World) drawFault(c *Call) string {
 	}
 	if (fault == FCrashBefore || fault == FCrashAfter) && w.startup {
 		fault = FNone
+	}
+	if c.Op == OpDescribeInst && (fault == FCrashBefore || fault == FCrashAfter || crash) {
+		// never crash inside the map-ordered lookup loop: which calls precede the crash would depend on map order
+		if fault == FCrashBefore || fault == FCrashAfter {
+			fault = FNone
+		}
+		crash = false
 	}
 	if fault == FNone && crash && !w.startup {
 		if crashAfter && isMutating(c.Op) {
